@@ -8,6 +8,7 @@ CONSTANTS
   MaxApi = 0
   MaxKeys = 1
   MaxCreds = 2
+  MaxGrants = 0
   VFs <- OnlyNone
   EXs <- NoneOr2
   SimDepth = 0
@@ -15,5 +16,6 @@ INIT Init
 NEXT Next
 VIEW View
 INVARIANT InvC32
+INVARIANT InvO2
 PROPERTY PropC36
 CHECK_DEADLOCK FALSE
